@@ -23,6 +23,7 @@ func checkPlanFor(prop, tier string) *checkPlan {
 				{Label: "repeat-sweep", Engine: "hist", Prop: "C05", Mode: "sweep:%d/64", Runs: n(64, 64), FaultFree: true},
 				{Label: "synth-repeat", Engine: "hist", Prop: "C05", Mode: "synthsweep:%d/1", Runs: n(96, 2500), FaultFree: true},
 				{Label: "clock-jumps", Engine: "hist", Prop: "C05", Mode: "clock", Bin: "fg", Runs: n(160, 6000)},
+				{Label: "panic-injection", Engine: "hist", Prop: "C05", Mode: "panicinj", Bin: "fg", Runs: n(160, 6000)},
 				{Label: "env", Engine: "hist", Prop: "C05", Runs: n(96, 1500), Special: "env"},
 				{Label: "syscall-audit", Engine: "hist", Prop: "C05", Runs: n(48, 400), Special: "audit", Audit: true},
 			},
@@ -115,6 +116,7 @@ func checkPlanMore(prop, tier string, n func(int, int) int, comp map[string][]st
 			Batches: []batchSpec{
 				{Label: "fault", Engine: "fault", Prop: "C01", Runs: n(320, 16000)},
 				{Label: "hist-hostile", Engine: "hist", Prop: "C01", Runs: n(240, 12000), FaultFree: true},
+				{Label: "panic-injection", Engine: "hist", Prop: "C01", Mode: "panicinj", Bin: "fg", Runs: n(200, 8000)},
 			},
 			Rule: "after every lint call of every run the result set is checked against the registry model: non-nil, keys = exactly the model's lints of the object's kind, every result non-nil with the registered metadata and one of the seven statuses, each presence flag <=> some result has that status, version = major version of the module path; a panic reaching the harness's recover is a violation; injected probe panics must come back as that probe's fatal result; every real lint's result is compared with the fresh-process reference. Fault batch: scripted status mixes (all 16 flag masks x 3 kinds driven explicitly), probe panics, inapplicable configurations; hist batch: real lints over corpus and mutated (byte-flipped, re-dated) objects through nested filters. distinct_nontrivial = distinct (kind, flag mask, selection size class) cells observed.",
 			Assumption: []string{"the clause 'real lints emit only the seven statuses on every input' is monitored on every result seen, but the search is not aimed at inputs (C02 is not claimed)", "hang detection is a wall-clock watchdog per worker process (a hang inside a lint body reaches no yield point)"},
